@@ -157,7 +157,10 @@ func (r *HTTPResponseExpr) Validate(e *HTTPEndpointExpr) *eval.ValidationErrors 
 				if v == nil {
 					return nil
 				}
-				return v.AttributeExpr.Find(name).Type
+				if att := v.AttributeExpr.Find(name); att != nil {
+					return att.Type
+				}
+				return nil
 			}
 			for _, v := range rt.Views {
 				if !rt.ViewHasAttribute(v.Name, name) {
